@@ -1855,6 +1855,16 @@ func (bc *Blockchain) AddBlock(block *block.Block) error {
 		if !block.MerkleRoot.Equals(merkle) {
 			return errors.New("invalid block: MerkleRoot mismatch")
 		}
+		// MerkleRoot doesn't protect from duplicates: the last hash of an odd
+		// level is paired with itself, so a copy of the last transaction can be
+		// appended to the list without changing the root.
+		seen := make(map[util.Uint256]struct{}, len(block.Transactions))
+		for _, tx := range block.Transactions {
+			if _, ok := seen[tx.Hash()]; ok {
+				return fmt.Errorf("invalid block: duplicate transaction %s", tx.Hash().StringLE())
+			}
+			seen[tx.Hash()] = struct{}{}
+		}
 		mp = mempool.New(len(block.Transactions), false, nil)
 		for _, tx := range block.Transactions {
 			var err error
